@@ -822,10 +822,27 @@ func (c *Ctx) checkIndexDelete(fn *ssa.Function, del *ssa.Call) {
 		c.R.Bad(ruleT5, key, c.P.InstrPos(del), "the identifier removed from the index is not the Pktid of the head slot")
 		return
 	}
-	// the load of the slot must precede the clearing store to that slot and the store to head
-	load, _ := ir.SeeThrough(base).(*ssa.UnOp)
+	// the instruction that actually reads the id from memory: the load of a struct copy of
+	// the slot, or - when the slot is only aliased through a pointer - the field load itself
+	var load ssa.Instruction
+	if u, ok := ir.SeeThrough(base).(*ssa.UnOp); ok {
+		load = u
+	} else if al, ok := ir.SeeThrough(base).(*ssa.Alloc); ok {
+		if s := ir.SingleStore(al); s != nil {
+			if u, ok := ir.SeeThrough(s).(*ssa.UnOp); ok {
+				load = u
+			}
+		}
+	}
+	if load == nil {
+		if u, ok := ir.SeeThrough(k).(*ssa.UnOp); ok {
+			load = u
+		}
+	}
 	bad := ""
-	if load != nil {
+	if load == nil {
+		bad = "cannot determine where the identifier of the released entry is read"
+	} else {
 		for _, b := range fn.Blocks {
 			for _, in := range b.Instrs {
 				st, ok := in.(*ssa.Store)
@@ -833,7 +850,7 @@ func (c *Ctx) checkIndexDelete(fn *ssa.Function, del *ssa.Call) {
 					continue
 				}
 				if _, isSlot := ringSlot(st.Addr); isSlot && ir.Before(st, load) {
-					bad = "the head slot is overwritten before its identifier is read"
+					bad = "the head slot is overwritten before its identifier is read (the slot is aliased, not copied)"
 				}
 				if p := ir.PathOf(st.Addr); len(p.Fields) > 0 && p.Fields[len(p.Fields)-1] == "head" && ir.Before(st, load) {
 					bad = "the head is advanced before the identifier of the released entry is read"
